@@ -363,4 +363,15 @@ example : estimate 1 [⟨1, 500, [⟨7, false, true⟩], 8⟩] true (some [[7]])
     wireLen 1 [⟨1, 500, [⟨7, false, true⟩], 8⟩] true [[7]] = 215 ∧
     wireLen 1 [⟨1, 500, [⟨7, false, true⟩], 8⟩] true [] = 212 := by decide
 
+-- added by the hygiene audit
+-- `estimate_eq_serialized_partial` / `estimate_ge_serialized_partial`: both side conditions hold for a small transaction with a lookup table
+example : (∀ s ∈ lutStats 1 [⟨1, 500, [⟨7, false, true⟩], 8⟩] [[7]], s.1 ≤ 127 ∧ s.2 ≤ 127) ∧
+    (usedTables (lutStats 1 [⟨1, 500, [⟨7, false, true⟩], 8⟩] [[7]])).length ≤ 127 := by decide
+-- `limits_respected_count`, `atomic_never_split`, `nonmergeable_group_untouched`: groups within the limits, a non-empty and a non-mergeable group
+example : (∀ p ∈ ([⟨[⟨1, [1], [⟨1, 500, [], 8⟩], false⟩], true⟩, ⟨[⟨1, [1], [⟨2, 500, [], 8⟩], true⟩], true⟩] : List PG),
+    ∀ g ∈ p.groups, g.ixs.length ≤ 14 ∧ g.ixs ≠ []) := by decide
+-- `add_validates` / `validateOne_ok`: a successful add
+example : (tgAdd ⟨1232, 14, none, []⟩ [] ⟨[⟨1, [1], [⟨1, 500, [], 8⟩], true⟩], true⟩).1.length = 1 ∧
+    validateOne ⟨1232, 14, none, []⟩ ⟨1, [1], [⟨1, 500, [], 8⟩], true⟩ = .ok () := ⟨by decide, rfl⟩
+
 end Gmx.C41
